@@ -655,7 +655,7 @@ def run_scripted(case):
         return {"hang": True, "hang_what": "not run: %d earlier runs in this process hung" % Limits.hangs,
                 "not_run": True, "elapsed": 0.0, "kills": 0, "kills_after_exit": 0, "stop_calls": 0,
                 "program_finished": False, "workers": [], "alive_after": [], "timer": None,
-                "stdin_writes": {"in": [], "out": [], "err": [], "main": []}, "stdin_closes": 0, "out_stream": "", "err_stream": "",
+                "stdin_writes": {"in": [], "out": [], "err": [], "main": []}, "stdin_closes": 0, "out_stream": "", "err_stream": "", "out_other": "", "err_other": "",
                 "out_submits": [], "err_submits": [], "consumed": [], "joins": [], "exit_observed": False,
                 "started": False, "outcome": "HANG", "stdout": None, "stderr": None, "exited": None}
     env = Env(case.get("events", []), never_eof=case.get("never_eof", ()),
@@ -663,17 +663,22 @@ def run_scripted(case):
     overrides = {}
     if case.get("config_timeout") is not None:
         overrides["timeouts"] = {"command": case["config_timeout"]}
+    enc_from = case.get("enc_from", "kwarg")
+    if enc_from == "config":
+        overrides["run"] = {"encoding": case.get("enc", "utf-8")}
     ctx = Context(Config(overrides=overrides)) if overrides else Context()
     runner = cls(ctx, env, start_error=case.get("start_error"))
-    out_rec, err_rec = Recorder(), Recorder()
+    out_rec, err_rec = Recorder(), Recorder()            # explicit out_stream / err_stream objects
+    sys_out, sys_err = Recorder(), Recorder()            # what sys.stdout / sys.stderr receive meanwhile
     watcher = RecordingWatcher()
     kwargs = dict(
         hide=HIDE[case.get("hide", "none")],
         pty=bool(case.get("pty")),
         warn=bool(case.get("warn")),
-        encoding=case.get("enc", "utf-8"),
         watchers=[watcher] + ([AlwaysResponder(case["respond"])] if case.get("respond") else []),
     )
+    if enc_from == "kwarg":
+        kwargs["encoding"] = case.get("enc", "utf-8")
     if case.get("async"):
         kwargs["asynchronous"] = True
     if case.get("out_given"):
@@ -707,8 +712,7 @@ def run_scripted(case):
                 env.cv.notify_all()
 
     saved = sys.stdout, sys.stderr
-    sys.stdout, sys.stderr = (out_rec if not case.get("out_given") else saved[0]), \
-                             (err_rec if not case.get("err_given") else saved[1])
+    sys.stdout, sys.stderr = sys_out, sys_err
     t = threading.Thread(target=call, daemon=True)
     t0 = time.time()
     try:
@@ -749,8 +753,12 @@ def run_scripted(case):
         "stdin_writes": {w: [list(b) for ww, b in env.stdin_writes if ww == w]
                          for w in ("in", "out", "err", "main")},
         "stdin_closes": env.stdin_closes,
-        "out_stream": out_rec.text(),
-        "err_stream": err_rec.text(),
+        # the stream the run was told to use: the explicit object, else sys.stdout/sys.stderr
+        "out_stream": out_rec.text() if case.get("out_given") else sys_out.text(),
+        "err_stream": err_rec.text() if case.get("err_given") else sys_err.text(),
+        # and the other one, which must stay silent
+        "out_other": sys_out.text() if case.get("out_given") else out_rec.text(),
+        "err_other": sys_err.text() if case.get("err_given") else err_rec.text(),
         "out_submits": list(watcher.seen.get("handle_stdout", [])),
         "err_submits": list(watcher.seen.get("handle_stderr", [])),
         "consumed": list(env.consumed),
